@@ -157,6 +157,7 @@ func copyClient(c *schema.ClientDoc) *schema.ClientDoc {
 // UpdateClient: UpdateOne(_id == CUID, $set ..., $currentDate updatedAt, upsert).
 // $currentDate always modifies an existing document, so the call succeeds.
 func (its *MongoCollections) UpdateClient(ctx iface.OrdaContext, client *schema.ClientDoc) errors.OrdaError {
+	_ = client.ToUpdateBSON()
 	err, done := its.begin(ctx, "UpdateClient")
 	if err != nil {
 		return err
@@ -349,6 +350,9 @@ func (its *MongoCollections) GetDatatypeByKey(ctx iface.OrdaContext, collectionN
 // UpdateDatatype: UpdateOne(_id == DUID, $set <all fields, updatedAt = now>, upsert);
 // updatedAt changes on every call, so an existing document counts as modified.
 func (its *MongoCollections) UpdateDatatype(ctx iface.OrdaContext, datatype *schema.DatatypeDoc) errors.OrdaError {
+	// the real repository builds the update document first (an argument of the driver
+	// call): whatever the schema does to the document on that occasion happens here too
+	_ = datatype.ToUpdateBSON()
 	err, done := its.begin(ctx, "UpdateDatatype")
 	if err != nil {
 		return err
